@@ -142,6 +142,13 @@ type vfWriteFault struct {
 	// Chunk > 0: deliver in chunks of this size with a scheduler yield between chunks, so that a
 	// missing writer lock shows up as interleaved bytes.
 	Chunk int
+	// Hold != nil: the write that would carry the byte with absolute offset HoldAtByte accepts the bytes
+	// before it, closes Held and blocks (a peer that stopped reading) until Hold is closed or the
+	// connection is closed; then it goes on normally. Write deadlines are ignored while held.
+	HoldAtByte int64
+	Hold       chan struct{}
+	Held       chan struct{}
+	heldOnce   sync.Once
 }
 
 // vfMemConn is the driver's end (or the node's end) of an in-memory connection.
@@ -199,6 +206,37 @@ func (c *vfMemConn) Write(p []byte) (int, error) {
 	f := c.fault
 	base := int64(len(c.wrote))
 	c.fmu.Unlock()
+	if f != nil && f.Hold != nil && f.HoldAtByte >= base && f.HoldAtByte < base+int64(len(p)) {
+		select {
+		case <-f.Hold: // already released
+		default:
+			pre := int(f.HoldAtByte - base)
+			m, err := c.out.write(p[:pre])
+			c.fmu.Lock()
+			c.wrote = append(c.wrote, p[:m]...)
+			c.fmu.Unlock()
+			if err != nil {
+				return m, err
+			}
+			f.heldOnce.Do(func() {
+				if f.Held != nil {
+					close(f.Held)
+				}
+			})
+			select {
+			case <-f.Hold:
+			case <-c.closedCh:
+				return m, vfNetErr{"vf: closed while held"}
+			}
+			// the time spent held does not count against the write deadline (the scenario decides how
+			// long the peer stays away, not the driver's WriteTimeout)
+			c.out.mu.Lock()
+			c.out.wdead = time.Time{}
+			c.out.mu.Unlock()
+			n2, err2 := c.Write(p[pre:])
+			return m + n2, err2
+		}
+	}
 	accept := len(p)
 	var ferr error
 	stall := false
